@@ -146,7 +146,9 @@ def scan(state, groups, tid):
             # documented: zero heat flux through the sides
             pt(fy * b, {"bc-left": bal([d1f(lambda q: T(q, fy * b), 0.0, 1e-3 * a) * a, 0.0], Ts),
                         "bc-right": bal([d1f(lambda q: T(q, fy * b), a, -1e-3 * a) * a, 0.0], Ts)})
-        t0 = 1e-4 * min(a, b) ** 2 / kap
+        # early enough that diffusion from the hot top has not reached the interior (erfc(5) ~ 1e-12), late enough that
+        # the truncated double series (Nsum = 60) has converged: exp(-kappa alpha^2 t0) ~ e^-44 at the truncation order
+        t0 = 1e-3 * min(a, b) ** 2 / kap
         for fx, fy in ((0.3, 0.3), (0.5, 0.5), (0.6, 0.7)):
             pt(fx * a, {"initial": bal([T(fx * a, fy * b, t0), 0.0], Ts)})
     elif fam == "Hutchens2":
